@@ -266,6 +266,18 @@ fn check(ctx: &Ctx) -> i32 {
         let sample = l.samples.len() < 2 && (i + ctx.seed) % 577 == 3;
         vh::netsweep::check_list("c01", &items, &reqs, l, sample, true);
     });
+    // category triples: one blocking rule x one exception x one modifier rule (redirect, csp,
+    // removeparam): the shortest lists on which every stage of the verdict pipeline has work to do
+    let is_mod = |r: &str| ["redirect=", "redirect-rule=", "csp=", "removeparam="].iter().any(|m| r.contains(m));
+    let cat_e: Vec<&'static str> = alpha::R_NET.iter().copied().filter(|r| r.starts_with("@@")).collect();
+    let cat_m: Vec<&'static str> = alpha::R_NET.iter().copied().filter(|r| !r.starts_with("@@") && is_mod(r)).collect();
+    let cat_b: Vec<&'static str> = alpha::R_NET.iter().copied().filter(|r| !r.starts_with("@@") && !is_mod(r) && !r.contains("badfilter")).collect();
+    ctx.bound("category_triples", serde_json::json!({"blocking": cat_b.len(), "exceptions": cat_e.len(), "modifiers": cat_m.len()}));
+    let (nb, ne, nm) = (cat_b.len() as u64, cat_e.len() as u64, cat_m.len() as u64);
+    ctx.par_range("category triples", nb * ne * nm, 2, |i, l| {
+        let items = [(cat_b[(i / (ne * nm)) as usize], false), (cat_e[((i / nm) % ne) as usize], false), (cat_m[(i % nm) as usize], false)];
+        vh::netsweep::check_list("c01", &items, &reqs, l, false, true);
+    });
     // bucket forcing: every rule of the pool, stored under each of its indexable tokens in turn
     let forced: Vec<(&'static str, String, Vec<String>)> = alpha::R_NET.iter().flat_map(|r| forced_lists(r).into_iter().map(move |(t, l)| (*r, t, l))).collect();
     ctx.bound("bucket_forcing_lists", forced.len());
@@ -302,7 +314,7 @@ fn check(ctx: &Ctx) -> i32 {
     }
     ctx.finish(
         "model_checking",
-        "all ordered lists without repetition of <= k rules of the 50-entry pool (R_net + 2 hosts lines), each built into a real engine (no optimisation), under every subset of the tags the list mentions, against every request of U_net x (initiator,type); plus bucket forcing (every pool rule with two filler rules per other indexable token, so that the rule is stored under each of its tokens in turn) and a corpus sweep (3 613 real rules from EasyList / uBO / Brave lists, frozen under harness/corpus, loaded as one list, against URLs derived from every rule by a fixed procedure x initiators x types); non-trivial = at least one rule of the list matches the request per the public matcher; states = engines built, transitions = requests checked, each compared field by field (matched, important, exception, redirect, rewritten URL, CSP set) with the reference combiner",
+        "all ordered lists without repetition of <= k rules of the pool (R_net + 2 hosts lines), every (blocking rule, exception, modifier rule) triple of it, each built into a real engine (no optimisation), under every subset of the tags the list mentions, against every request of U_net x (initiator,type); plus bucket forcing (every pool rule with two filler rules per other indexable token, so that the rule is stored under each of its tokens in turn) and a corpus sweep (3 613 real rules from EasyList / uBO / Brave lists, frozen under harness/corpus, loaded as one list, against URLs derived from every rule by a fixed procedure x initiators x types); non-trivial = at least one rule of the list matches the request per the public matcher; states = engines built, transitions = requests checked, each compared field by field (matched, important, exception, redirect, rewritten URL, CSP set) with the reference combiner",
         &[
             "per-rule match = the public NetworkFilter::matches on the parsed rule (differential); precedence, badfilter, tags, redirect choice, removeparam and CSP come from the independent reference",
             "no 64-bit seahash collision among the strings of the alphabets (checked at start-up)",
